@@ -426,7 +426,9 @@ def run_property(pid, tier, seed, spec, workdir, ev_path, a, t0):
         if not kj:
             continue
         ok = False
-        for j in kj[:3]:
+        pref = k.get("confirm_args", {})  # jobs on which the finding is known to show are tried first
+        kj.sort(key=lambda j: 0 if pref and all(str(j.args.get(x)) == str(v) for x, v in pref.items()) else 1)
+        for j in kj[:4]:
             jj = Job(j.harness, j.args, j.defines, j.budget, 1, 0, witnesses=0)
             r = run_sym(build, jj)
             res = r["res"]
